@@ -427,7 +427,18 @@ class Outcome:
         EVIDENCE.mkdir(exist_ok=True)
         cov = dict(self.cov)
         cov.setdefault("samples", [])
-        cov["samples"] = cov["samples"][:6]
+
+        def shrink(x, depth=0):
+            # samples are there to be read: long arrays are cut, with a marker
+            if isinstance(x, list):
+                y = [shrink(v, depth + 1) for v in x[:24]]
+                if len(x) > 24:
+                    y.append(f"... ({len(x)} items)")
+                return y
+            if isinstance(x, dict):
+                return {k: shrink(v, depth + 1) for k, v in x.items()}
+            return x
+        cov["samples"] = [shrink(x) for x in cov["samples"][:6]]
         ev = dict(property_id=self.prop, tier=self.tier, seed=self.seed, level=self.level,
                   coverage=cov, assumptions=self.assumptions,
                   wall_s=round(time.time() - self.t0, 2), violations=len(self.violations))
